@@ -41,7 +41,8 @@ fn join(set: impl IntoIterator<Item = String>) -> String {
 fn rec_of(tags: &[(String, bool)]) -> Dict {
     let mut d = Dict::new();
     for (t, m) in tags {
-        d.insert(t.clone(), if *m { Value::Marker } else { Value::make_number(1.0) });
+        // (every record that has an id has the same one: the same entity seen again with other tags)
+        d.insert(t.clone(), if *m { Value::Marker } else if t == "id" { Value::make_ref_with_dis("r1", "Entity") } else { Value::make_number(1.0) });
     }
     d
 }
@@ -147,6 +148,9 @@ fn gen_query(rng: &mut Rng, keys: &[String], all: &[String]) -> Query {
             let c = k(rng);
             if c.contains('-') {
                 tags = c.split('-').map(|p| (p.to_string(), true)).collect();
+            }
+            if rng.coin() {
+                tags.push(("id".to_string(), false));
             }
             tags.sort();
             tags.dedup_by(|a, b| a.0 == b.0);
